@@ -1,5 +1,5 @@
-\* MUTANT NoDesignatedCheck: find_more_work does not look at designated work (scheduler.rs:537-540).
-\* TLC must REJECT this configuration (expected: StageOrderOK).
+\* MUTANT SentinelEager: set_sentinel schedules the packet at once instead of waiting for the drained bucket (work_bucket.rs:255).
+\* TLC must REJECT this configuration (expected: SentinelAfterClosure).
 SPECIFICATION Spec
 CONSTANTS
   N = 2
@@ -25,7 +25,7 @@ CONSTANTS
   SchedToggle = {}
   AtomicScan = TRUE
   FreePrograms = FALSE
-  Mutant = "NoDesignatedCheck"
+  Mutant = "SentinelEager"
 INVARIANTS
   TypeOK NoPanic ParkedCountOK CondvarOK NoStuck LastParkedUnique FlagProtocol
   StageOrderOK OpenPrefix AllClosedAtGCEnd PacketConservation PacketExactlyOnce RunOnlyOpen
